@@ -43,6 +43,7 @@ struct value {
     bool is_str() const { return kind == Str; }
     size_t size() const { return kind == Arr ? a->size() : kind == Obj ? o->size() : 0; }
     const value& operator[](size_t k) const { return (*a)[k]; }
+    const value& operator[](int k) const { return (*a)[(size_t)k]; }
     bool has(const std::string& k) const { if (kind != Obj) return false; for (auto& p : *o) if (p.first == k) return true; return false; }
     const value& operator[](const std::string& k) const {
         static value nullv;
